@@ -936,6 +936,9 @@ def _k_in_range(family, case, disc):
         if sp.cls_of(f["dtype"]) == "float":
             return False
         for seg in segs:
+            # vectorised checks without strategy take no part in the element chain: the base strategy is the
+            # first other check
+            seg = [x for x in seg if x[1]["c"] != "vec_ge"]
             if seg and seg[0][1]["c"] == "in_range":
                 tag, c = seg[0]
                 values = fl["cases"] or _numeric_cells(snap, fl.get("label") if role == "column" else None)
@@ -1034,12 +1037,12 @@ def _k_nul(family, case, disc):
 # --------------------------------------------------------------------- families
 
 FAMILIES = [
-    Family("field", evaluate, strategy=st_field_case, n_quick=150, n_thorough=1500, shards_quick=6,
+    Family("field", evaluate, strategy=st_field_case, n_quick=130, n_thorough=1500, shards_quick=6,
            shards_thorough=16, required_labels=["kind=series", "kind=column", "kind=index", "chain=2", "chain=3",
                                                 "nullable", "unique", "arg-none", "literal-metachar",
                                                 "check=ew_gt", "check=vec_ge", "check=strat_le", "check=ext_ge",
                                                 "model=sat", "model=unsat", "clean", "free"]),
-    Family("frame", evaluate, strategy=st_frame_case, n_quick=55, n_thorough=800, shards_quick=6,
+    Family("frame", evaluate, strategy=st_frame_case, n_quick=50, n_thorough=800, shards_quick=6,
            shards_thorough=16, required_labels=["kind=dataframe", "kind=multiindex", "regex-column", "index=multi",
                                                 "index=single", "joint-unique", "frame-checks",
                                                 "frame+column-checks", "model=sat"]),
